@@ -221,3 +221,8 @@ def run(repo: Repo, rep: Report, tier: str) -> None:
                   "exported in the IRMemWrite branch" if ex9 else
                   f"IRMemWrite.{slot9} is only recorded as a consumer: an anonymous constant there is treated as inlinable and never placed, so nothing reaches the gate "
                   + ("(`m.write(5, when=c)` never stores)" if slot9 == "data_signal" else "(an unconditional `m.write(v)` with non-self-referential data never stores: the signal-W = 1 constant is missing)"), an9.loc())
+
+    # ---------------- R10 --------------------------------------------------------------
+    from .shared import borrow as _borrow3b
+    _borrow3b(repo, rep, "C12", "C12-R4", "C03-R10", "a gated cell keeps its reads when another cell is rewritten into a feedback combinator: the rewrite touches the recorded reads "
+              "of its own cell only", select=lambda o: "only for reads of the cell" in o.construct or "re-pointed, and only those" in o.construct, floor=1)
